@@ -477,8 +477,13 @@ class HostConnection(object):
             if is_down:
                 self.shutdown()
             else:
-                self._connection = None
                 with self._lock:
+                    if connection is not self._connection:
+                        # a connection that had already been replaced failed;
+                        # the current connection is not affected
+                        self._trash.discard(connection)
+                        return
+                    self._connection = None
                     if self._is_replacing:
                         return
                     self._is_replacing = True
